@@ -19,6 +19,9 @@ I64_MAX, I64_MIN = 9223372036854775807, -9223372036854775808
 POOL = [
     str(I64_MAX), str(I64_MIN), "0", "-1", "1.5", '""', '"hé✓🙂"', "[]", "[[1], [2, 3]]", '(1, "a")',
     'Dict["a" => 1]', "None", "Some(1)", "fun(x) { x }", "Unit", 'Path{ p: "rel.gdn" }',
+    # lists whose runtime element-type TAG disagrees with their contents (a list literal is tagged from one
+    # element, List::append retags from the appended value): seeded C02-2 trusted the tag in String::join
+    '[1, 2].append("c")', '[1, "a"]', '["a", 1]', '["a", "b"].append(1)', '[[1], "x"]', '[None, 1]',
 ]
 INDEXB = [-1, 0, 1, 2, 3, 4, 5, 8, 28, I64_MAX]
 BOUNDARY = [I64_MIN, I64_MIN + 1, -2, -1, 0, 1, 2, 3, 63, 64, 4294967296, I64_MAX - 1, I64_MAX]
@@ -47,9 +50,9 @@ def typed_values(ty, scratch):
         return [P("exists.txt"), P("missing.txt"), P("sub"), 'Path{ p: "rel.gdn" }',
                 'Path{ p: "/nonexistent-limits/x.gdn" }', 'Path{ p: "" }', 'Path{ p: "__snippet.gdn" }']
     if ty.startswith("List<String>"):
-        return ['["a", "b"]']
+        return ['["a", "b"]', '[1, 2].append("c")', '[1, "a"]']
     if ty.startswith("List<Int>"):
-        return ["[72, 105]", "[-1, 256]"]
+        return ["[72, 105]", "[-1, 256]", '["a"].append(1)', '["a", 1]']
     if ty == "List":
         return ["[1, 2, 3]", '["x"]']
     if ty == "Dict":
